@@ -353,7 +353,7 @@ def alias_sequences(method, max_degree=None):
     return out
 
 
-def make_config(rng, method, kind, lead=None, rotated=False):
+def make_config(rng, method, kind, lead=None, rotated=False, decay=None):
     """kind: 'uniform' | 'mixed' | 'alias-first' | 'alias-last' | 'alias-other';  returns a JSON-able dict"""
     alias = None
     if kind.startswith("alias"):
@@ -394,6 +394,15 @@ def make_config(rng, method, kind, lead=None, rotated=False):
         if r == 0 and mode == "function":
             row = [row[0]] + [0] * (kf - 1)   # a single-valued function at the centre
         coef.append(row)
+    # large dynamic range across the shells (an exponentially decaying or growing density): g_lm(r_i) = integer * 2^(e_i).
+    # Each shell's results depend on that shell's values only, so they are checked relative to the shell's own size.
+    if decay is None:
+        decay = rng.choice([None, None, None, "out", "in"])
+    shell_exp = [0] * len(rs)
+    if decay:
+        step = rng.randint(9, 17)
+        shell_exp = [-step * (i if decay == "out" else len(rs) - 1 - i) for i in range(len(rs))]
+        coef = [[float(c) * 2.0 ** e for c in row] for row, e in zip(coef, shell_exp)]
     centre = rng.choice([[0, 0, 0], [Fraction(1, 2), -1, 2], [Fraction(-3, 4), Fraction(1, 4), Fraction(-5, 2)]])
     if lead == "tiny":
         # AtomGrid stores absolute coordinates: directions of a shell of radius 1e-9 about an off-origin centre are only
@@ -401,7 +410,7 @@ def make_config(rng, method, kind, lead=None, rotated=False):
         centre = [0, 0, 0]
     rotate = rng.choice([1, 7, 2023]) if rotated else rng.choice([0, 0, 1, 7, 2023])
     return {"r": [str(x) for x in rs], "w": [str(x) for x in ws], "degrees": degs, "method": method,
-            "center": [str(Fraction(c)) for c in centre], "rotate": rotate, "L": L, "coef": coef, "mode": mode,
+            "center": [str(Fraction(c)) for c in centre], "rotate": rotate, "L": L, "coef": coef, "shell_exp": shell_exp, "mode": mode,
             "pseed": rng.randrange(2 ** 30)}
 
 
@@ -583,6 +592,16 @@ def close(a, b, scale=1.0, tol=TOL):
     return a.shape == b.shape and finite(a) and bool(np.all(np.abs(a - b) <= tol * max(1.0, scale)))
 
 
+def close_shells(a, b, svec, c=16.0, tol=TOL):
+    """last axis = shells; every entry within tol * c * (size of the function on that shell)"""
+    a, b = np.asarray(a, dtype=float), np.asarray(b, dtype=float)
+    return a.shape == b.shape and finite(a) and bool(np.all(np.abs(a - b) <= tol * c * np.maximum(np.asarray(svec, dtype=float), 1e-300)))
+
+
+def shell_excess(a, b, svec, c=16.0, tol=TOL):
+    return np.abs(np.nan_to_num(np.asarray(a, dtype=float), nan=1e300) - b) / np.maximum(tol * c * np.asarray(svec, dtype=float), 1e-300)
+
+
 def validate_spline_hypotheses(ctx, rng, report):
     """knots / linearity / derivative hypotheses on scipy.interpolate.CubicSpline itself (the oracle `spl`)"""
     from scipy.interpolate import CubicSpline
@@ -685,11 +704,17 @@ def check_atom(ctx, cfg, rec, B: Bucket, report, tag, axis_today=True):
     B.defs.append(info.coq_grid(gname))
     fv = info.band_values(cfg["coef"])
     # a second function for the stacked call / the cached basis: another coefficient table
-    coef_b = np.array([[rng.randint(-2, 2) for _ in range(Kf)] for _ in range(n)], dtype=float)
+    sexp = np.array(cfg.get("shell_exp") or [0] * n, dtype=float)
+    coef_b = np.array([[rng.randint(-2, 2) for _ in range(Kf)] for _ in range(n)], dtype=float) * (2.0 ** sexp)[:, None]
     fvb = info.band_values(coef_b)
+    ctx.count("dynamic_range=" + ("none" if not np.any(sexp) else "decaying outwards" if sexp[-1] < 0 else "growing outwards"))
     scale = max(1.0, maxabs(fv), maxabs(fvb))
     tol_q = dy(float(2.0 ** math.ceil(math.log2(TIE_TOL * scale))))
     B.defs.append(f"Definition f{tag} := {info.coq_fvals(fv)}.\nDefinition fb{tag} := {info.coq_fvals(fvb)}.\n")
+    # size of the function on each shell: the per-shell results are checked relative to it
+    ssc = np.array([max(maxabs(fv[info.idx[i]:info.idx[i + 1]]), float(np.max(np.abs(coef[i]))) / 4) for i in range(n)])
+    sscb = np.array([max(maxabs(fvb[info.idx[i]:info.idx[i + 1]]), float(np.max(np.abs(coef_b[i]))) / 4, 2.0 ** sexp[i] / 4) for i in range(n)])
+    pt_shell = np.searchsorted(info.idx, np.arange(info.N), side="right") - 1
     own_int = float(np.sum(wown * fv))
     sq4pi = math.sqrt(4 * math.pi)
 
@@ -705,8 +730,8 @@ def check_atom(ctx, cfg, rec, B: Bucket, report, tag, axis_today=True):
         orep("angular_integral_exact", "int_ang", str(ia.tolist())[:120], f"integrate_angular_coordinates returned shape {ia.shape} / non-finite values {ia.tolist()}", {"expected": (sq4pi * coef[:, 0]).tolist()})
     else:
         exp = sq4pi * coef[:, 0]
-        if not close(ia, exp, scale):
-            i = int(np.argmax(np.abs(ia - exp)))
+        if not close_shells(ia, exp, ssc) or not close_shells(ia2[0], exp, ssc) or not close_shells(ia2[1], sq4pi * coef_b[:, 0], sscb):
+            i = int(np.argmax(shell_excess(ia, exp, ssc)))
             orep("angular_integral_exact", "int_ang", float(ia[i]),
                  f"shell {i} (r={float(info.r[i])}): angular integral {float(ia[i])!r}, exact sqrt(4 pi) g_00(r_i) = {float(exp[i])!r}", {"shell": i, "expected": exp.tolist(), "observed_all": ia.tolist()})
         tot = float(np.sum(info.r ** 2 * info.w * ia))
@@ -735,8 +760,9 @@ def check_atom(ctx, cfg, rec, B: Bucket, report, tag, axis_today=True):
             trep("corr_spline_data", "spline_x", rec.splines[0][0].tolist(), "CubicSpline is not built on rgrid.points")
         exp = np.zeros((K, n))
         exp[:Kf] = cf.T
-        if not finite(ys) or not close(ys, exp, scale):
-            d = np.abs(np.nan_to_num(ys, nan=1e30) - exp)
+        sv = ssc if which == "first" else sscb
+        if not finite(ys) or not close_shells(ys, exp, sv):
+            d = shell_excess(ys, exp, sv)
             k, i = np.unravel_index(int(np.argmax(d)), d.shape)
             l = int(math.isqrt(k))
             orep("components_recovered", f"component:{which}", float(ys[k, i]),
@@ -759,12 +785,13 @@ def check_atom(ctx, cfg, rec, B: Bucket, report, tag, axis_today=True):
         res = call(arr)
         return res, (np.array([s_[1] for s_ in rec.splines]) if rec.splines else np.zeros((0, n)))
 
-    def hist_check(step, ys, cf_expected, fname):
+    def hist_check(step, ys, cf_expected, fname, sv=None):
+        sv = sscb if sv is None else sv
         ctx.case(("history", key0, step))
         exp = np.zeros((K, n))
         exp[:Kf] = np.asarray(cf_expected).T
-        if ys.shape != (K, n) or not finite(ys) or not close(ys, exp, scale * 2):
-            d = np.abs(np.nan_to_num(ys, nan=1e30) - exp) if ys.shape == (K, n) else np.ones((1, 1))
+        if ys.shape != (K, n) or not finite(ys) or not close_shells(ys, exp, 2 * sv):
+            d = shell_excess(ys, exp, 2 * sv) if ys.shape == (K, n) else np.ones((1, 1))
             k, i = np.unravel_index(int(np.argmax(d)), d.shape)
             orep("components_recovered", f"history:{step}", float(ys[k, i]) if ys.shape == (K, n) else str(ys.shape),
                  f"history on one AtomGrid [{step}]: radial component row {k} at shell {i}: value handed to the spline "
@@ -776,7 +803,7 @@ def check_atom(ctx, cfg, rec, B: Bucket, report, tag, axis_today=True):
     try:
         buf = fv.copy()
         _, ys = comps_of(grid.radial_component_splines, buf)
-        hist_check("splines(buf)", ys, coef, None)
+        hist_check("splines(buf)", ys, coef, None, ssc)
         buf[:] = fvb
         _, ys = comps_of(grid.radial_component_splines, buf)
         hist_check("splines(buf); buf[:] = g; splines(buf)", ys, coef_b, f"fb{tag}")
@@ -797,14 +824,14 @@ def check_atom(ctx, cfg, rec, B: Bucket, report, tag, axis_today=True):
         grid.spherical_average(buf)
         ya_h = rec.splines[0][1] if len(rec.splines) == 1 else np.zeros(0)
         ctx.case(("history", key0, "average"))
-        if not close(ia_h, sq4pi * coef[:, 0], scale) or not close(ya_h, coef[:, 0] / math.sqrt(4 * math.pi), scale):
+        if not close_shells(ia_h, sq4pi * coef[:, 0], ssc) or not close_shells(ya_h, coef[:, 0] / math.sqrt(4 * math.pi), ssc):
             orep("angular_integral_exact", "history:angular", str(ia_h.tolist())[:100],
                  f"history on one AtomGrid [...; buf[:] = f; integrate_angular_coordinates(buf); spherical_average(buf)]: angular integrals {ia_h.tolist()}, "
                  f"average data {np.asarray(ya_h).tolist()}, exact sqrt(4 pi) g_00 = {(sq4pi * coef[:, 0]).tolist()}", {"history": "inplace-angular"})
         big = np.concatenate([fvb, fv, fvb])
         view = big[info.N:2 * info.N]
         _, ys = comps_of(grid.radial_component_splines, view)
-        hist_check("splines(view of a larger buffer)", ys, coef, None)
+        hist_check("splines(view of a larger buffer)", ys, coef, None, ssc)
         big[info.N:2 * info.N] = fvb
         _, ys = comps_of(grid.radial_component_splines, view)
         hist_check("splines(view); base[...] = g; splines(same view)", ys, coef_b, None)
@@ -826,6 +853,10 @@ def check_atom(ctx, cfg, rec, B: Bucket, report, tag, axis_today=True):
         if ya is None or not np.array_equal(rec.splines[0][0], info.r):
             trep("corr_spline_data", "average_spline", len(rec.splines), "spherical_average does not build exactly one CubicSpline on rgrid.points")
         elif finite(ya):
+            if not close_shells(ya, coef[:, 0] / math.sqrt(4 * math.pi), ssc):
+                i = int(np.argmax(shell_excess(ya, coef[:, 0] / math.sqrt(4 * math.pi), ssc)))
+                orep("angular_integral_exact", "average_data", float(ya[i]),
+                     f"spherical_average: value handed to the spline at shell {i} (r={float(info.r[i])}) is {float(ya[i])!r}, g_00(r_i) / sqrt(4 pi) = {float(coef[i, 0] / math.sqrt(4 * math.pi))!r}", {"shell": i})
             B.case(f"qvec_close {tol_q} (sph_avg_q {gname} f{tag}) {dyl(ya)}", ("average_data", cfg, trep))
     except Exception as e:  # noqa: BLE001
         orep("average_integrates_back", "average", type(e).__name__, f"spherical_average raised {type(e).__name__}: {e}")
@@ -855,6 +886,9 @@ def check_atom(ctx, cfg, rec, B: Bucket, report, tag, axis_today=True):
             for i in range(n):
                 if info.r[i] == 0.0:
                     mask[info.idx[i]:info.idx[i + 1]] = False     # not a single-valued function at the centre
+        # (evaluated through Cartesian points and scipy's piecewise polynomials: the rounding error at a knot is relative to the
+        #  neighbouring spline coefficients, so this comparison uses the global size of the data; the per-shell relative checks
+        #  are those on the angular integrals and on the arrays handed to the splines)
         d = np.where(mask, np.abs(np.nan_to_num(got, nan=1e30) - fv), 0.0)
         if np.max(d) > TOL * spl_scale:
             j = int(np.argmax(d))
@@ -1293,7 +1327,9 @@ def plan(ctx: Ctx):
         # every run has a rotated grid with a node at r = 0 (canonical angles) and a rotated grid whose innermost radius is
         # tiny but non-zero (regenerated weights, but the angles of the actual points)
         forced = {0: ("zero", True), 1: ("tiny", True)}.get(j % 8 if not ctx.quick else j, (None, False))
-        cfgs.append(make_config(rng, m, k, lead=forced[0], rotated=forced[1]))
+        # every run has functions decaying / growing by many orders of magnitude across the shells
+        decay = {2: "out", 3: "in", 4: "out"}.get(j % 8 if not ctx.quick else j)
+        cfgs.append(make_config(rng, m, k, lead=forced[0], rotated=forced[1], decay=decay))
     mols = []
     # molecules with ONE, two and three centres (the sum over atoms has a single term for a lone atom, whose aim weights
     # need not be one: e.g. one fragment of a larger partition), aim weights given as an array or as a callable
@@ -1414,7 +1450,9 @@ def run(ctx: Ctx):
                        "size-aliasing mixed sequences computed from each method's size table (sum of shell sizes = n_shells x size of the first / last / "
                        "another shell, e.g. Lebedev [9, 7, 11]), "
                        "three centres, rotation seeds {0, 1, 7, 2023}; f = sum_{l <= L} g_lm(r_i) Y_lm with integer tables g in [-3, 3], L <= min(3, min d_i / 2), "
-                       "either single-valued at the centre or defined through the canonical angles there; a second table exercises the cached basis and the "
+                       "either single-valued at the centre or defined through the canonical angles there; in at least three grids per run (and a fifth of the others) "
+                       "the rows are scaled by 2^(-9..-17 per shell), decaying or growing outwards, and every per-shell result (angular integral, spline nodes, "
+                       "value at the shell's grid points) is checked relative to the size of the function on that shell; a second table exercises the cached basis and the "
                        "stacked (2, N) input; 14-16 evaluation points per grid (centre, both polar half-axes, coordinate planes, beyond the last shell, grid "
                        "points, random dyadic) x 8 call modes; molecular grids with 1, 2 and 3 centres (a one-centre molecule in every run), random dyadic aim weights "
                        "(not identically one) passed as an array or as a callable, arbitrary (not band-limited) function values, 6 call modes; per grid a history on "
